@@ -1,6 +1,7 @@
 #![allow(dead_code)]
 //! `check <property> [--tier quick|thorough] [--replay <file>]`
 mod c04;
+mod c05;
 mod c06;
 mod c07;
 mod c10;
@@ -27,6 +28,7 @@ type CheckFn = fn(&serde_json::Value) -> Verdict;
 fn lookup(id: &str) -> Option<(RunFn, CheckFn)> {
     Some(match id {
         "C04" => (c04::run, c04::check_record),
+        "C05" => (c05::run, c05::check_record),
         "C06" => (c06::run, c06::check_record),
         "C07" => (c07::run, c07::check_record),
         "C10" => (c10::run, c10::check_record),
